@@ -25,7 +25,7 @@ from harness import catalog, findings, pool, tlc  # noqa: E402
 from harness.show import brief  # noqa: E402
 
 GLOBAL_OWNER = {"wellformed": "C03", "poison": "C12", "frame": "C17", "options": "C14"}
-STD_KEYS = ("act", "prop", "args", "out", "res", "digests", "targets", "opts", "ms", "kept", "note")
+STD_KEYS = ("act", "prop", "args", "out", "res", "digests", "targets", "after", "opts", "ms", "kept", "note")
 
 
 def owner_of(failure: dict) -> str:
